@@ -2592,6 +2592,143 @@ example :
     (run .fixed (init 1 [(0, 0), (2, 0)] true) (panicSched.take 23)).wg ≠ 0 ∧
     noTargetPanic panicSched = false ∧ noTargetPanic raceSched = true := by decide
 
+/-! ## the terminal outcome belongs to the attempt that `Close` waits for
+
+The model's `deliver` step with a final outcome stands for everything `tryDelivery` does after the next hop has
+answered: the failure report for the recipients that failed for good is handed to the bounce pipeline
+(`emitDSN`, synchronously), then the message is removed from the spool — all inside the dispatch goroutine, which
+is counted by `deliveryWg` until its deferred function has run.  (Harness: a bounce pipeline is configured; work an
+attempt leaves behind in another goroutine is scheduled last, and what is gone from the spool when `Close` returns
+must have its outcome: `C12/work-running-after-close`, `C12/outcome-lost-at-close`.) -/
+
+/-- Every message removed from the spool was removed by an attempt goroutine that is in its deferred
+function (`release`: semaphore token and WaitGroup unit still held) or has ended. -/
+def OutcomeInv (s : St) : Prop :=
+  ∀ m ∈ s.removed, ∃ t ∈ s.thr, t.kind = .attempt ∧ (t.pc = .release ∨ t.pc = .done ∨ t.pc = .panicked) ∧ t.slot.msg = m
+
+theorem outcomeInv_step {v : Variant} {s s' : St} {w : Who} (hK : KindInv s)
+    (hI : OutcomeInv s) (h : step v s w = some s') : OutcomeInv s' := by
+  have keep : ∀ (i : Nat) (t : Thread) (pc : Pc) (sl : Slot), s.thr[i]? = some t →
+      t.pc ≠ .release → t.pc ≠ .done → t.pc ≠ .panicked →
+      ∀ m ∈ s.removed, ∃ u ∈ s.thr.set i { t with slot := sl, pc := pc },
+        u.kind = .attempt ∧ (u.pc = .release ∨ u.pc = .done ∨ u.pc = .panicked) ∧ u.slot.msg = m := by
+    intro i t pc sl hget hp1 hp2 hp3 m hm
+    obtain ⟨u, hu, hku, hpu, hmu⟩ := hI m hm
+    refine ⟨u, mem_set_of_ne hu hget ?_, hku, hpu, hmu⟩
+    intro hut; subst hut
+    rcases hpu with hpu | hpu | hpu
+    · exact hp1 hpu
+    · exact hp2 hpu
+    · exact hp3 hpu
+  have move : ∀ (i : Nat) (t : Thread) (pc : Pc), s.thr[i]? = some t →
+      (pc = .release ∨ pc = .done ∨ pc = .panicked) →
+      ∀ m ∈ s.removed, ∃ u ∈ s.thr.set i { t with pc := pc },
+        u.kind = .attempt ∧ (u.pc = .release ∨ u.pc = .done ∨ u.pc = .panicked) ∧ u.slot.msg = m := by
+    intro i t pc hget hpc m hm
+    have hil : i < s.thr.length := (List.getElem?_eq_some_iff.mp hget).1
+    obtain ⟨u, hu, hku, hpu, hmu⟩ := hI m hm
+    by_cases hut : u = t
+    · subst hut
+      exact ⟨{ u with pc := pc }, List.mem_iff_getElem?.mpr ⟨i, by simp [List.getElem?_set, hil]⟩, hku, hpc, hmu⟩
+    · exact ⟨u, mem_set_of_ne hu hget hut, hku, hpu, hmu⟩
+  apply step_elim h (motive := fun _ s' => OutcomeInv s')
+  case releaseCrash | release =>
+    intro i c t hget hpc _ _
+    exact move i t _ hget (by simp)
+  case acquire | acquireBad | checkStopped | checkGo | lock | push | sendClosedFixed | sendClosedUnfixed | panicReleaseCrash | panicRelease | discard =>
+    intro i c t hget hpc
+    intros
+    exact keep i t _ t.slot hget (by rw [hpc]; simp) (by rw [hpc]; simp) (by rw [hpc]; simp)
+  case deliverRetry =>
+    intro i d t hget hpc _
+    exact keep i t _ _ hget (by rw [hpc]; simp) (by rw [hpc]; simp) (by rw [hpc]; simp)
+  case updEmpty | updKeep | updReset =>
+    intro i t hget hpc
+    intros
+    exact keep i t _ t.slot hget (by rw [hpc]; simp) (by rw [hpc]; simp) (by rw [hpc]; simp)
+  case deliverPanic =>
+    intro i t hget hpc
+    exact keep i t _ t.slot hget (by rw [hpc]; simp) (by rw [hpc]; simp) (by rw [hpc]; simp)
+  case deliverDone =>
+    intro i c t hget hpc m hm
+    have hil : i < s.thr.length := (List.getElem?_eq_some_iff.mp hget).1
+    have hkind : t.kind = .attempt := by
+      have hk := hK t (List.mem_of_getElem? hget)
+      cases hkk : t.kind with
+      | attempt => rfl
+      | producer =>
+        have := hk hkk
+        rw [hpc] at this
+        simp [prodPc] at this
+    simp only [List.mem_cons] at hm
+    rcases hm with rfl | hm
+    · exact ⟨{ t with pc := .release }, List.mem_iff_getElem?.mpr ⟨i, by simp [List.getElem?_set, hil]⟩, hkind, Or.inl rfl, rfl⟩
+    · exact keep i t _ t.slot hget (by rw [hpc]; simp) (by rw [hpc]; simp) (by rw [hpc]; simp) m hm
+  case dispatch =>
+    intro cur hc m hm
+    obtain ⟨u, hu, hr⟩ := hI m hm
+    exact ⟨u, List.mem_append_left _ hu, hr⟩
+  case dispatchBad =>
+    intro cur hc _ m hm
+    obtain ⟨u, hu, hr⟩ := hI m hm
+    exact ⟨u, List.mem_append_left _ hu, hr⟩
+  all_goals intros
+  all_goals exact hI
+
+theorem outcome_reach (v : Variant) (cap : Nat) (prods : List (Nat × Nat)) (wc : Bool) (sched : List Who) :
+    OutcomeInv (run v (init cap prods wc) sched) := by
+  have := run_inv (v := v) (fun s => Inv cap s ∧ OutcomeInv s)
+    (fun s w s' hI h => ⟨inv_step hI.1 h, outcomeInv_step hI.1.kind hI.2 h⟩)
+    sched _ ⟨inv_init cap prods wc, by intro m hm; simp [init] at hm⟩
+  exact this.2
+
+/-- **The terminal outcome is the attempt's own step**: at `deliver`, a final answer of the next hop
+(`choice = 0`: delivered, or rejected for good — then the failure report is handed to the bounce
+pipeline in this very step) removes the message and leaves the goroutine at its deferred function,
+semaphore token and WaitGroup unit still held. -/
+theorem C12_terminal_outcome_step (v : Variant) (s : St) (i : Nat) (t : Thread) (hget : s.thr[i]? = some t)
+    (hpc : t.pc = .deliver) :
+    step v s (.thr i 0) =
+      some { s with removed := t.slot.msg :: s.removed, thr := s.thr.set i { t with pc := .release } } := by
+  simp [step, stepThr, hget, hpc]
+
+/-- The same when a temporary failure exhausts `max_tries`. -/
+theorem C12_max_tries_outcome_step (v : Variant) (s : St) (i d : Nat) (t : Thread) (hget : s.thr[i]? = some t)
+    (hpc : t.pc = .deliver) (hb : t.slot.budget = 0) :
+    step v s (.thr i (d + 1)) =
+      some { s with removed := t.slot.msg :: s.removed, thr := s.thr.set i { t with pc := .release } } := by
+  simp [step, stepThr, hget, hpc, hb]
+
+/-- **Whatever is gone from the spool was removed by a goroutine `Close` waits for (both variants, all
+schedules).**  In every reachable state each removed message has an attempt goroutine that reached the
+outcome and is now in its deferred function (still counted by `deliveryWg`: `C12_counts`) or has
+ended (or, pinned tree only, died in the deferred function). -/
+theorem C12_removed_by_counted_attempt (v : Variant) (cap : Nat) (prods : List (Nat × Nat)) (wc : Bool)
+    (sched : List Who) :
+    ∀ m ∈ (run v (init cap prods wc) sched).removed, ∃ t ∈ (run v (init cap prods wc) sched).thr,
+      t.kind = .attempt ∧ (t.pc = .release ∨ t.pc = .done ∨ t.pc = .panicked) ∧ t.slot.msg = m :=
+  outcome_reach v cap prods wc sched
+
+/-- **Nothing is pending for a removed message once `Close` has returned (repaired tree).**  Every
+message that is gone from the spool then has an attempt goroutine that reached its terminal outcome —
+failure report included — and has ENDED: no work on its behalf is left for a process that exits now. -/
+theorem C12_removed_outcome_complete_after_close (cap : Nat) (prods : List (Nat × Nat)) (wc : Bool)
+    (sched : List Who) (hd : (run .fixed (init cap prods wc) sched).closer = some .done) :
+    ∀ m ∈ (run .fixed (init cap prods wc) sched).removed, ∃ t ∈ (run .fixed (init cap prods wc) sched).thr,
+      t.kind = .attempt ∧ t.pc = .done ∧ t.slot.msg = m := by
+  intro m hm
+  obtain ⟨t, ht, hk, hp, hmt⟩ := outcome_reach .fixed cap prods wc sched m hm
+  refine ⟨t, ht, hk, ?_, hmt⟩
+  rcases C12_close_waits_for_attempts_fixed cap prods wc sched hd t ht hk with h | ⟨h, _⟩
+  · exact h
+  · rw [h] at hp
+    rcases hp with hp | hp | hp <;> cases hp
+
+/-- non-vacuity: `twoSched` removes both messages; the hypotheses of the theorem above are satisfiable
+(`raceSched`: `Close` returns). -/
+example : (run .fixed (init 1 [(5, 0), (3, 0)] false) twoSched).removed = [0, 1] ∧
+    (run .fixed (init 1 [(0, 1)] true) raceSched).closer = some .done := by decide
+
 /-! ## the pinned tree: the panic also escapes from a producer's `Commit` -/
 
 /-- Unrepaired variant, one producer, no retry needed: `Add` passes the stopped check, `Close` stops
